@@ -74,7 +74,10 @@ func cacheFilterFamily() []*term {
 
 type cacheKeyDef struct{ ns, name string }
 
-var cacheKeys = []cacheKeyDef{{"a", "p"}, {"a", "q"}, {"b", "p"}, {"b", "q"}, {"", "p"}} // the last one: a cluster-scoped object (no namespace)
+var cacheKeys = []cacheKeyDef{{"a", "p"}, {"a", "q"}, {"b", "p"}, {"b", "q"}, {"", "p"}, // the last one: a cluster-scoped object (no namespace)
+	// two different namespace/name pairs whose "namespace/name" renderings coincide (the cache accepts
+	// any metav1.Object; identity is the pair, not a joined string)
+	{"a/b", "c"}, {"a", "b/c"}}
 
 func genVersion() *rapid.Generator[string] {
 	return rapid.Custom(func(t *rapid.T) string {
@@ -292,7 +295,7 @@ func cacheCheckStep(t failer, prop string, rc *realCache, m *cacheModel, fam []*
 			if err != nil {
 				t.Fatalf("C01 violation: Get failed: %v", err)
 			}
-			want := after[k.ns+"/"+k.name]
+			want := after[keyStr(k.ns, k.name)]
 			if (got == nil) != (want == nil) || (got != nil && got != want) {
 				t.Fatalf("C01 violation: after %s: Get(%s/%s)=%s but List has %s", op, k.ns, k.name, objStr(got), objStr(want))
 			}
